@@ -12,6 +12,7 @@
   * the model's `step` is total — every lookup is an `Option` match, there is no panic constructor; the "does not
     panic" half of the property therefore rests on the correspondence check (`catch_unwind` around every scenario).
 -/
+import Cobweb.Proofs.Boot
 import Cobweb.Proofs.CtlStep
 import Cobweb.Proofs.Counts
 import Cobweb.Theorems.C05
@@ -113,9 +114,9 @@ theorem tick_events (p : Prog) (hh : Hist) {s s' : St} (c : Ctl s) (ht : tick p 
 
 /-- **No system runs on behalf of a dead target**: in every execution, a step starts no body of a system that is not alive
     when the step begins — whatever command, reaction, postponed entry or replay named it. -/
-theorem no_run_for_dead_target {p : Prog} {h : Hist} {s s' : St} (hr : Reach p h ({} : St) s) (ht : tick p h s = some s')
+theorem no_run_for_dead_target {p : Prog} {h : Hist} {s s' : St} {s0 : St} (hI0 : CoreInv s0) (hr : Reach p h s0 s) (ht : tick p h s = some s')
     (sys : Nat) (hd : s.alive sys = false) : nBody sys s' = nBody sys s := by
-  have c := ctl_reach p h ctl_default hr
+  have c := (core_reach_from p h hI0 hr).inv5.ctl
   rcases tick_events p h c ht with ⟨evs, he, hq⟩ | ⟨sys0, obs, he, hal, _⟩
   · simp only [nBody, he]
     exact countP_quiet sys evs (ct s) (fun e h => (hq e h).2)
@@ -125,9 +126,9 @@ theorem no_run_for_dead_target {p : Prog} {h : Hist} {s s' : St} (hr : Reach p h
 
 /-- **Whatever payload a stale operation carries is released**: at quiescence every payload that was sent — to live or dead
     targets alike — has been dropped exactly as often as it was sent (payload accounting, `C05`). -/
-theorem stale_payloads_released {p : Prog} {h : Hist} {s : St} (hr : Reach p h ({} : St) s) (hq : s.stack = []) (pid : Nat) :
+theorem stale_payloads_released {p : Prog} {h : Hist} {s : St} {s0 : St} (hI0 : CoreInv s0) (hr : Reach p h s0 s) (hq : s.stack = []) (pid : Nat) :
     s.trace.count (.dropPayload pid) = s.trace.count (.send pid) :=
-  C05.all_payloads_dropped_at_quiescence hr hq pid
+  C05.all_payloads_dropped_at_quiescence hI0 hr hq pid
 
 /-- Non-vacuity: a system is spawned, despawned, and then sent a system event with payload 9: no body ever runs and the
     payload has been dropped once at quiescence. -/
